@@ -28,6 +28,10 @@ def run(prog, rep):
         rep.floor("E1.a", per_rule.get(r, 0), n, "sites discharged by %s" % r)
     sccs, n_edges = e1_div.run_e1b(prog, rep)
     rep.floor("E1.b", n_edges, FLOOR_REC_EDGES, "recursive call edges")
+    # the lazy forcing cycle (known finding D20 for *long* chains) is cut for *cyclic* definitions only by a thunk's Forcing
+    # state: every scoped definition must therefore be stored as a thunk (C04.M), whatever its value looks like
+    from . import C04
+    C04.memo_rule(prog, rep)
     n_loops, stats, mc = e1_div.run_e1c(prog, rep)
     rep.floor("E1.c", n_loops, FLOOR_LOOPS, "natural loops")
     rep.floor("E1.c", stats["parser"], 14, "parser loops shown to consume input")
